@@ -111,6 +111,11 @@ def c12_battery(binary):
     def three(root):
         for n, data in (("a.bin", b"aaXX11" + b"Q" * 3000), ("b.bin", b"aaYY22" + b"Q" * 3000), ("c.bin", b"aaXX11" + b"Q" * 3000)):
             open(os.path.join(root, n), "wb").write(data)
+    # modification times before 1970 (restored archives, broken clocks): a rewrite that moves the mtime from 1960 to 1965 changes it
+    hist("same-length rewrite, mtime moves from 1960 to 1965 (both before the epoch)",
+         [lambda r: two(r, t=ns(-315619200, 0)), lambda r: edit(r, "b.bin", 2500, b"B", ns(-144000000, 0))])
+    hist("same-length rewrite, mtime moves from 1969-12-31 23:59:59.200 to 1970-01-01 00:00:00.200",
+         [lambda r: two(r, t=(-800_000_000, -800_000_000)), lambda r: edit(r, "b.bin", 2500, b"B", (200_000_000, 200_000_000))])
     # the same command with and without --in-place hashes different bytes (the program's output vs the file it worked on)
     def inplace_files(root):
         for n, data in (("a.bin", b"AAAAxxxx111"), ("b.bin", b"AAAAyyyy222")):
